@@ -151,7 +151,29 @@ def real_case(case: dict) -> list:
         for step in case["script"]:
             before = _listing(cdir)
             log.write_text("")
-            if step[0] == "mutate":
+            if step[0] == "plant":
+                # files that are in the directory before the run: left by an older version, copied, damaged, stale
+                for k, vid, spec in keys:
+                    what = step[1].get(k)
+                    if what is None:
+                        continue
+                    name = _fname(rk[k])
+                    blob = pickle.dumps(build(vid, spec))
+                    if what[0] == "prefix":
+                        (cdir / name).write_bytes(blob[: what[1]])
+                    elif what[0] == "full":
+                        (cdir / name).write_bytes(blob)
+                    elif what[0] == "foreign":  # the complete pickle of ANOTHER input's result under this key's name
+                        ok, ovid, ospec = next(x for x in keys if x[0] == what[1])
+                        (cdir / name).write_bytes(pickle.dumps(build(ovid, ospec)))
+                    elif what[0] == "stale-tmp":  # the temporary of a process that died long ago
+                        (cdir / f"{name}.99999.tmp").write_bytes(blob[: what[1]])
+                    elif what[0] == "garbage":
+                        (cdir / name).write_bytes(b"\x00not a pickle")
+                    else:
+                        raise ValueError(what)
+                out.append({"fs": _obs_fs(cdir, keys, before, rk), "planted": len(step[1])})
+            elif step[0] == "mutate":
                 # the caller works on what the last run returned, in place (normalises a list, rescales a frame ...)
                 n = 0
                 for _, v in last:
@@ -206,6 +228,8 @@ def real_case(case: dict) -> list:
                     o = ["ok", [[back.get(k, repr(k)), _ident(keys, v)] for k, v in res]]
                 except (pickle.UnpicklingError, EOFError):
                     o = "error"
+                except pickle.PickleError:
+                    o = "error"
                 except OSError as e:  # the cache could not even be written
                     o = f"raised:{type(e).__name__}"
                 except Exception as e:  # noqa: BLE001  a complete run must not raise at all: report it as its outcome
@@ -257,6 +281,22 @@ def model_request(case: dict) -> dict:
             script.append(["crash", prog])
         elif step[0] == "mutate":
             script.append(["crash", []])  # the caller's own objects are not files: nothing happens to the cache
+        elif step[0] == "plant":
+            ents = []
+            for k, vid, spec in keys:
+                what = step[1].get(k)
+                if what is None or what[0] == "garbage":
+                    continue
+                if what[0] == "prefix":
+                    ents.append([k, "final", vid, what[1]])
+                elif what[0] == "full":
+                    ents.append([k, "final", vid, psize(vid, spec)])
+                elif what[0] == "foreign":
+                    ok, ovid, ospec = next(x for x in keys if x[0] == what[1])
+                    ents.append([k, "final", ovid, psize(ovid, ospec)])
+                elif what[0] == "stale-tmp":
+                    ents.append([k, "tmp", vid, what[1]])
+            script.append(["plant", ents])
         else:
             script.append(["run"])
     return {"op": "c19", "mode": "gen", "sizes": [[vid, psize(vid, spec)] for _, vid, spec in keys],
@@ -279,7 +319,10 @@ def model_obs(case: dict, resp: list) -> list:
                 fin.append([k, "absent"])
             else:
                 w, p = f
-                fin.append([k, "full" if (w == vid_of[k] and p >= sizes[w]) else ["prefix", p]])
+                if w != vid_of[k]:
+                    fin.append([k, ["other", p]])  # a file that holds (a prefix of) another input's result
+                else:
+                    fin.append([k, "full" if p >= sizes[w] else ["prefix", p]])
         tmp = dict((k, f) for k, f in r["fs"]["tmp"])
         # temporaries written DURING this step.  The model has one temporary per key (the real name carries the pid),
         # so a victim that re-creates the very same state is recognised by "it reached its save": no result file yet,
@@ -442,6 +485,19 @@ def gen_cases(ctx):
             case["realkeys"] = unusual_keys(rng, keys)
         cases.append(case)
         cid += 1
+    # files that are there before the run (seed-independent): truncated result files (what the pinned version left behind),
+    # another input's complete result under this key's name, bytes that are no pickle, a dead process's temporary
+    base = [("int", 0), ("str", 16), ("list", 5)]
+    n1 = psize(11, base[1])
+    for what, tag in [(["prefix", 0], "truncated"), (["prefix", 1], "truncated"), (["prefix", n1 // 2], "truncated"),
+                      (["prefix", n1 - 1], "truncated"), (["foreign", "k0"], "foreign"), (["foreign", "k2"], "foreign"),
+                      (["garbage"], "garbage"), (["stale-tmp", 3], None), (["stale-tmp", n1], None), (["full"], None)]:
+        for w in ((0, 2) if tag != "garbage" else (0,)):
+            case = {"id": cid, "keys": mk_keys(base), "script": [["plant", {"k1": what}], ["run", w], ["run", 0]]}
+            if tag:
+                case["foreign_files"] = tag
+            cases.append(case)
+            cid += 1
     # F-C19-2: keys the default file naming cannot hold apart / cannot write
     cases.append({"id": cid, "keys": mk_keys([("int", 0), ("str", 8)]), "realkeys": {"k0": ["s", "k_in/2"]},
                   "script": [["run", 0]]})
@@ -452,8 +508,9 @@ def gen_cases(ctx):
 
 # ----------------------------------------------------------------------------- verdicts
 def shape_of(case):
-    kinds = "+".join(s[0][:4] + (str(s[2]) if s[0] == "poolcrash" else "") if s[0] != "run" else f"run{s[1]}"
-                     for s in case["script"])
+    kinds = "+".join((s[0][:4] + (str(s[2]) if s[0] == "poolcrash" else "") + ("-" + "-".join(str(x) for v in s[1].values() for x in v)
+                                                                                     if s[0] == "plant" else ""))
+                     if s[0] != "run" else f"run{s[1]}" for s in case["script"])
     return f"{len(case['keys'])}keys:{kinds}"
 
 
@@ -478,12 +535,31 @@ def judge_case(ctx, case, R, M):
             m = None
         if step[0] == "mutate":
             continue
+        if step[0] == "plant":
+            continue
         if step[0] != "run":
             # interrupted run: nothing is promised about the files; this validates the model's crash states
             if m is not None and r["fs"] != m["fs"]:
                 ctx.add_drift(sub, r["fs"], m["fs"], f"files after interrupted run (step {i})")
             continue
         broken = any(isinstance(st, list) for _, st in (R[i - 1]["fs"]["final"] if i else []))
+        foreign = case.get("foreign_files")
+        if foreign == "garbage":
+            # bytes that are no pickle at all: outside the model; the run must say so, never return something
+            ctx.judge(sub, {"out": r["out"]}, {"out": "error"}, None, what="a result file that is no pickle: the run raises (nothing is served)")
+            continue
+        if foreign:
+            # a directory the shipped code cannot have produced (truncated result file of an older version, a copied
+            # file): nothing is promised; this validates the model's load branch (`loadError`, serve-what-is-there)
+            Rv = {"out": r["out"], "calls": r["calls"]}
+            Mv = None if m is None else {"out": m["out"], "calls": m["calls"]}
+            if Mv is not None and step[1] > 0 and Mv["out"] == "error":
+                Mv["calls"] = Rv["calls"]  # after a load error the pool still finishes other keys; only `out` is modelled
+            ctx.hist[f"foreign:{foreign}:{r['out'] if isinstance(r['out'], str) else 'served'}"] = ctx.hist.get(
+                f"foreign:{foreign}:{r['out'] if isinstance(r['out'], str) else 'served'}", 0) + 1
+            if Mv is not None and Rv != Mv:
+                ctx.add_drift(sub, Rv, Mv, f"complete run over planted {foreign} result files (step {i})")
+            continue
         S = {"out": all_ok, "calls": r["uncached_before"]}
         Rv = {"out": r["out"], "calls": r["calls"]}
         Mv = None if m is None else {"out": m["out"], "calls": m["calls"]}
